@@ -2,6 +2,8 @@ package main
 
 import (
 	"verif/engine/sym"
+
+	"github.com/AdguardTeam/urlfilter/rules"
 )
 
 func init() {
@@ -36,17 +38,53 @@ func init() {
 			}
 			return jobs
 		},
+		Prepare: func(rc *RunCtx) error {
+			// the real classification of every trimmed line over {a, #, space} up to 6 bytes
+			tab := map[string]uint64{}
+			var rec func(s string)
+			rec = func(s string) {
+				if s != "" && s[0] != ' ' && s[len(s)-1] != ' ' {
+					r, err := rules.NewRule(s, 1)
+					var k uint64
+					switch {
+					case err != nil:
+						k = 1
+					case r == nil:
+						k = 0
+					default:
+						switch r.(type) {
+						case *rules.HostRule:
+							k = 2
+						case *rules.NetworkRule:
+							k = 3
+						default:
+							k = 4
+						}
+					}
+					tab[s] = k
+				}
+				if len(s) < 6 {
+					for _, c := range "a# " {
+						rec(s + string(c))
+					}
+				}
+			}
+			rec("")
+			rc.Natives["classify"] = tab
+			return nil
+		},
 		Setup: func(e *sym.Engine, st *sym.State, l *sym.Loaded) {
 			setupNetip(e, st, l)
+			e.Ctx["table:classify"] = curRun.Natives["classify"]
 			e.Redirects[modPath+"/rules.NewRule"] = l.Pkgs[modPath+"/filterlist"].Func("verifNewRuleStub")
 		},
 		MustReach: []string{"c11.packing", "c11.scanned", "c11.storage", "c11.duplicate", "c11.file", "c11.filescan"},
 		ContractStubs: "os.File is the engine's file model (content, offset, closed flag; a read may be short); a counterexample that needs a short read cannot be forced natively",
 		Bounds: map[string]string{
-			"quick":    "index packing for all int32 pairs (full width); in-memory list content of 0..4 symbolic bytes over {a, space, LF, CR} (the classification of a trimmed line is uninterpreted, so other bytes add nothing) scanned through the real RuleScanner / bufio.Reader / strings.Reader code and retrieved through the real RetrieveRule, IgnoreCosmetic on and off; CRLF variant; file-backed list vs in-memory list on the same symbolic content of 0..3 bytes with a read buffer of 1..3 bytes and short reads (RetrieveRule at every offset; scanned sequence); storage of 1..3 lists with arbitrary int32 ids (negative, zero, extreme) and an arbitrary offset below 2^31",
+			"quick":    "index packing for all int32 pairs (full width); in-memory list content of 0..4 symbolic bytes over {a, #, space, LF, CR} (lines are classified by a table of the real NewRule results for every line over {a,#,space}, computed natively each run, so counterexamples replay) scanned through the real RuleScanner / bufio.Reader / strings.Reader code and retrieved through the real RetrieveRule, IgnoreCosmetic on and off; CRLF variant; file-backed list vs in-memory list on the same symbolic content of 0..3 bytes with a read buffer of 1..3 bytes and short reads (RetrieveRule at every offset; scanned sequence); storage of 1..3 lists with arbitrary int32 ids (negative, zero, extreme) and an arbitrary offset below 2^31",
 			"thorough": "content up to 6 bytes",
 		},
-		Outside:     []string{"rules.NewRule's classification of a trimmed line (uninterpreted function of the line; the real parser is C12/C18/C03..)", "the real os.File and operating system (file model: content, offset, closed flag, reads that deliver one byte or everything)", "contents longer than the bound, in particular lines longer than the 4 KiB read buffer", "multi-byte UTF-8 and NUL bytes"},
+		Outside:     []string{"rules.NewRule beyond its results on lines over {a,#,space} (exact table) - other lines would be an uninterpreted classification", "the real os.File and operating system (file model: content, offset, closed flag, reads that deliver one byte or everything)", "contents longer than the bound, in particular lines longer than the 4 KiB read buffer", "multi-byte UTF-8 and NUL bytes"},
 		Assumptions: []string{"bufio.Reader and strings.Reader are executed from their real bodies (not stubbed)"},
 		Rule:        "content bytes symbolic; line structure forks; one state per feasible path",
 	})
